@@ -165,12 +165,14 @@ macro_rules! harnesses {
 pub mod refs;
 pub mod rd;
 pub mod c10;
+pub mod c18;
 
 pub fn dispatch_all(name: &str, s: &mut ReplaySrc) -> bool {
-    c10::dispatch(name, s)
+    c10::dispatch(name, s) || c18::dispatch(name, s)
 }
 pub fn all_names() -> Vec<&'static str> {
     let mut v = Vec::new();
     v.extend(c10::names());
+    v.extend(c18::names());
     v
 }
